@@ -19,6 +19,7 @@ import (
 	"sort"
 	"strings"
 	"sync"
+	"sync/atomic"
 	"time"
 
 	"github.com/markkurossi/mpc/circuit"
@@ -130,25 +131,39 @@ func main(%s [650]uint8) ([650]uint8, uint8) {
 	return src, bits
 }
 
+type gmwJob struct {
+	circ   *circuit.Circuit
+	inputs []*big.Int
+}
+
 type gmwRun struct {
 	outs   [][]*big.Int
+	more   [][][]*big.Int // outputs of the further circuits run on the same network: job -> party -> values
 	errs   []error
 	events map[int]map[int]gmw.VerifAndBatch // batch -> party -> event
 }
 
 var gmwHookMu sync.Mutex
 
-func runGMW(circ *circuit.Circuit, inputs []*big.Int, rng *rand.Rand, timeout time.Duration, stagger bool) (*gmwRun, error) {
+func runGMW(circ *circuit.Circuit, inputs []*big.Int, rng *rand.Rand, timeout time.Duration, stagger bool, more ...gmwJob) (*gmwRun, error) {
 	n := len(inputs)
 	addrs, err := freePorts(n)
 	if err != nil {
 		return nil, err
 	}
 	r := &gmwRun{outs: make([][]*big.Int, n), errs: make([]error, n), events: map[int]map[int]gmw.VerifAndBatch{}}
+	r.more = make([][][]*big.Int, len(more))
+	for j := range r.more {
+		r.more[j] = make([][]*big.Int, n)
+	}
+	var firstDone int32
 	var emu sync.Mutex
 	gmwHookMu.Lock()
 	defer gmwHookMu.Unlock()
 	gmw.VerifAndBatchHook = func(ev gmw.VerifAndBatch) {
+		if atomic.LoadInt32(&firstDone) != 0 {
+			return // batches of the further circuits are not recorded (batch numbers start again)
+		}
 		emu.Lock()
 		if r.events[ev.Batch] == nil {
 			r.events[ev.Batch] = map[int]gmw.VerifAndBatch{}
@@ -210,6 +225,15 @@ func runGMW(circ *circuit.Circuit, inputs []*big.Int, rng *rand.Rand, timeout ti
 			time.Sleep(runDelays[p])
 			out, err := nw.Run(inputs[p], circ, false)
 			r.outs[p], r.errs[p] = out, err
+			// further circuits on the same, already used network
+			for j := 0; j < len(more) && err == nil; j++ {
+				atomic.StoreInt32(&firstDone, 1)
+				out, err = nw.Run(more[j].inputs[p], more[j].circ, false)
+				r.more[j][p] = out
+				if err != nil {
+					r.errs[p] = fmt.Errorf("circuit %d on the same network: %v", j+2, err)
+				}
+			}
 			if err == nil {
 				if err := nw.Close(); err != nil {
 					r.errs[p] = fmt.Errorf("Close: %v", err)
@@ -394,7 +418,41 @@ func c10Main(args []string) error {
 			if err != nil {
 				return err
 			}
-			r, err := runGMW(circ, inputs, rng, 60*time.Second, i%8 == 1)
+			// a network is reused: a second circuit with the same argument sizes, then the first circuit again with
+			// other inputs, on the network the first run used
+			var more []gmwJob
+			var moreWant [][]*big.Int
+			if i%4 == 2 || i%4 == 0 && i > 0 {
+				ts := make([]string, n)
+				for p := range ts {
+					ts[p] = fmt.Sprintf("a%d uint%d", p, bits[p])
+				}
+				expr := "a0"
+				for p := 1; p < n; p++ {
+					expr = fmt.Sprintf("((%s & uint%d(a%d)) | (%s >> 1)) + uint%d(a%d)", expr, bits[0], p, expr, bits[0], p)
+				}
+				src2 := fmt.Sprintf("package main\n\nfunc main(%s) (uint%d, bool) {\n\tr := %s\n\treturn r, r > a0\n}\n", strings.Join(ts, ", "), bits[0], expr)
+				p2 := utils.NewParams()
+				p2.Target = utils.TargetGMW
+				circ2, err := compileMPCL(src2, p2)
+				if err != nil {
+					return fmt.Errorf("compile for GMW: %v\n%s", err, src2)
+				}
+				circ2.AssignLevels(utils.TargetGMW)
+				for _, c := range []*circuit.Circuit{circ2, circ} {
+					in := make([]*big.Int, n)
+					for p := range in {
+						in[p] = new(big.Int).Rand(rng, new(big.Int).Lsh(big.NewInt(1), uint(bits[p])))
+					}
+					w, err := c.Compute(in)
+					if err != nil {
+						return err
+					}
+					more = append(more, gmwJob{circ: c, inputs: in})
+					moreWant = append(moreWant, w)
+				}
+			}
+			r, err := runGMW(circ, inputs, rng, 60*time.Second, i%8 == 1, more...)
 			if err != nil && err.Error() == "stall" {
 				res.viol("stall", "GMW run with %d parties does not terminate", n)
 			} else if err != nil {
@@ -406,6 +464,13 @@ func c10Main(args []string) error {
 						res.viol("error", "party %d of %d: %v", p, n, r.errs[p])
 					} else if !sameBigs(r.outs[p], want) {
 						res.viol("wrong-output", "party %d of %d returns %v, plain evaluation gives %v (inputs %v)", p, n, r.outs[p], want, inputs)
+					} else {
+						for j := range more {
+							if !sameBigs(r.more[j][p], moreWant[j]) {
+								res.viol("wrong-output:reused-network", "circuit %d run on the same network: party %d of %d returns %v, plain evaluation gives %v", j+2, p, n, r.more[j][p], moreWant[j])
+								break
+							}
+						}
 					}
 				}
 				if i > 0 {
